@@ -303,7 +303,7 @@ ROW_CLASS_SITES = [
     ("data.create_single_treatment_effect_map", "single_treatment_mask", "single", "treatment_ids"),
     ("synergy.calculate_synergy", "single_treatment_mask", "single", "treatment_ids"),
     ("retrospective.PairwisePlateGenerator._generate_plates", "combo_mask", "combo", "screen.treatment_ids"),
-    ("data.filter_dataset_to_treatments_that_appear_in_at_least_one_combo", "treatment_selection_vector", "combo", "treatment_ids"),
+    ("data.filter_dataset_to_treatments_that_appear_in_at_least_one_combo", "<rows whose treatments are kept>", "combo", "treatment_ids"),
     ("models.sparse_combo_interaction.SparseDrugComboInteraction._add_observations", "<ingested rows>", "combo", "data.treatment_ids"),
 ]
 
@@ -437,6 +437,18 @@ def r7(ctx, rule="R7", sites=ROW_CLASS_SITES):
             e = inline(parse_expr(sel), single_defs(f.node))
             cls = control_count_class(e, ids)
             var = f"rows fed to _update [{sel}]"
+        elif var == "<rows whose treatments are kept>":
+            # np.unique(<ids>[ROWS] ...): the rows whose treatment ids form the kept set
+            sub = []
+            for c in calls(f.node, name="np.unique"):
+                for x in ast.walk(c):
+                    if isinstance(x, ast.Subscript) and U(x.value) == ids and not isinstance(x.slice, (ast.Tuple, ast.Slice)):
+                        sub.append(x)
+            ctx.need(len(sub) == 1, f"{f.site()}: the row selection inside np.unique({ids}[...]) was not found")
+            env0 = {k: v for k, v in single_defs(f.node).items() if U(v) != ids and k != ids}
+            e = inline(sub[0].slice, env0)
+            cls = control_count_class(e, ids)
+            var = f"rows whose treatments are kept [{U(sub[0].slice)}]"
         else:
             ds = [n for n in walk_own(f.node) if isinstance(n, ast.Assign) and len(n.targets) == 1 and isinstance(n.targets[0], ast.Name) and n.targets[0].id == var]
             ctx.need(len(ds) == 1, f"{f.site()}: row-class variable `{var}` not found (or defined more than once)")
